@@ -166,11 +166,14 @@ def collect(ctx, invs):
         st.pop("beep")
         if k % 7 == 0:
             st["hum"] = 0
-        model = acdev.ACModel(state=dict(st, display=rng.random() < 0.5), state_len=24, props={0x09: b"\x00", 0x0A: b"\x00", 0x48: b"\x64", 0x42: b"\x01", 0x18: b"\x00", 0xE3: b"\x01\x00", 0x43: b"\x01"})
+        model = acdev.ACModel(state=dict(st, display=rng.random() < 0.5), state_len=24,
+                              caps_pages=[bytes([0xB5, 2, 0x10, 0x02, 1, 1, 0x14, 0x02, 1, 0, 0, 0])],      # custom fan speeds, modes; NO display control
+                              props={0x09: b"\x00", 0x0A: b"\x00", 0x48: b"\x64", 0x42: b"\x01", 0x18: b"\x00", 0xE3: b"\x01\x00", 0x43: b"\x01"})
         rep = snap(model)
-        argv = ["control", "10.0.0.50"] + (["--token", TOK.hex(), "--key", KEY.hex(), "--id", str(rng.getrandbits(40))] if ver == 3 else []) + list(args)
+        capflag = ["--capabilities"] if k % 6 == 5 else []          # capabilities queried before the settings are applied
+        argv = ["control", "10.0.0.50"] + capflag + (["--token", TOK.hex(), "--key", KEY.hex(), "--id", str(rng.getrandbits(40))] if ver == 3 else []) + list(args)
         obs = run_cli(argv, model, ver)
-        obs.update(args=[B(a.encode()) for a in args], reported=rep, after=snap(model), ver=ver, argv=args)
+        obs.update(args=[B(a.encode()) for a in args], reported=rep, after=snap(model), ver=ver, argv=args, capflag=bool(capflag))
         vectors.append(obs)
         ctx.count_distinct(tuple(args))
     return vectors
@@ -186,7 +189,7 @@ def judge(ctx, vectors, canaries=True):
         c = copy.deepcopy(ok[1]); c["exit"] = 1; cans.append(c)
         c = copy.deepcopy(bad[0]); c["exit"] = 0; cans.append(c)
         c = copy.deepcopy(bad[1]); c["sent"] = 3; cans.append(c)
-    rej = ctx.validate_vectors("Trace_Cli", [{k: v for k, v in x.items() if k != "argv"} for x in vectors + cans])
+    rej = ctx.validate_vectors("Trace_Cli", [{k: v for k, v in x.items() if k not in ("argv", "capflag")} for x in vectors + cans])
     n = len(vectors)
     if canaries and len({i for i, _ in rej if i >= n}) != len(cans):
         raise MachineryError("Trace_Cli accepted a canary")
@@ -194,8 +197,8 @@ def judge(ctx, vectors, canaries=True):
     for i, clause in rej:
         if i < n:
             v = vectors[i]
-            ctx.violation("control " + " ".join(v["argv"])[:160] + f" (V{v['ver']})", clause,
-                          {"argv": v["argv"], "ver": v["ver"], "reported": v["reported"], "after": v["after"], "exit": v["exit"], "exc": v["exc"], "sent": v["sent"]})
+            ctx.violation("control " + ("--capabilities " if v.get("capflag") else "") + " ".join(v["argv"])[:160] + f" (V{v['ver']})", clause,
+                          {"argv": v["argv"], "capflag": v.get("capflag", False), "ver": v["ver"], "reported": v["reported"], "after": v["after"], "exit": v["exit"], "exc": v["exc"], "sent": v["sent"]})
 
 
 def run(ctx: Ctx) -> int:
@@ -221,9 +224,10 @@ def replay(ctx: Ctx, path: str) -> int:
     import json
     c = json.load(open(path))["case"]
     model = acdev.ACModel(state={k: v for k, v in c["reported"].items()}, state_len=24,
+                          caps_pages=[bytes([0xB5, 2, 0x10, 0x02, 1, 1, 0x14, 0x02, 1, 0, 0, 0])],
                           props={0x09: b"\x00", 0x0A: b"\x00", 0x48: b"\x64", 0x42: b"\x01", 0x18: b"\x00", 0xE3: b"\x01\x00", 0x43: b"\x01"})
     rep = snap(model)
-    argv = ["control", "10.0.0.50"] + (["--token", TOK.hex(), "--key", KEY.hex(), "--id", "77"] if c["ver"] == 3 else []) + list(c["argv"])
+    argv = ["control", "10.0.0.50"] + (["--capabilities"] if c.get("capflag") else []) + (["--token", TOK.hex(), "--key", KEY.hex(), "--id", "77"] if c["ver"] == 3 else []) + list(c["argv"])
     obs = run_cli(argv, model, c["ver"])
     obs.update(args=[B(a.encode()) for a in c["argv"]], reported=rep, after=snap(model), ver=c["ver"], argv=c["argv"])
     judge(ctx, [obs], canaries=False)
